@@ -442,3 +442,67 @@ func verifC15_unsolicited() {
 	c.CloseNow()
 	vObserve("c15unsol", len(pp), err == nil)
 }
+
+// C15.abandoned: a Ping that is abandoned (its context ends while it is still queued behind a writer) after the peer has
+// already sent a Pong bearing its payload - peers can predict payloads that are a counter - must leave nothing behind
+// that satisfies a later Ping: the next Ping, which nobody answers (or which is answered with the old payload only),
+// returns an error when its context ends.
+func verifC15_abandoned() {
+	client := vParam("client", 1) == 1
+	vInstallRand()
+	mk := func(f vFrame) vFrame {
+		f.masked = !client
+		if f.masked {
+			copy(f.key[:], vBytes("key", 4))
+		}
+		return f
+	}
+	t := vNewTransport(nil)
+	t.endMode = vEndBlock
+	t.holdAt = 1
+	c := vNewConn(t, client, nil, 32, 64)
+	wdone := make(chan error, 1)
+	go func() { wdone <- c.Write(vBG, MessageBinary, vBytes("w", 2)) }()
+	vGhostSettle() // the writer is inside its frame, holding the frame lock
+	c.CloseRead(vBG)
+	ctx1, cancel1 := context.WithCancel(vBG)
+	p1done := make(chan error, 1)
+	go func() { p1done <- c.Ping(ctx1) }()
+	vGhostSettle() // the Ping is registered and queued behind the writer
+	// Pongs for the payloads a counter would produce
+	for _, pl := range []string{"1", "0"} {
+		t.vFeed(vEncodeFrame(mk(vFrame{fin: true, opcode: 10, payload: []byte(pl)})))
+	}
+	vGhostSettle()
+	cancel1()
+	<-p1done
+	close(t.release)
+	vAssert(<-wdone == nil, "C15.abandoned.writer-ok")
+	vGhostSettle()
+	again := vChoose("oldPongAgain", 2) == 1
+	ctx2, cancel2 := context.WithTimeout(vBG, time.Second)
+	p2done := make(chan error, 1)
+	go func() { p2done <- c.Ping(ctx2) }()
+	vGhostSettle()
+	if again {
+		t.vFeed(vEncodeFrame(mk(vFrame{fin: true, opcode: 10, payload: []byte("1")})))
+	}
+	err2 := <-p2done
+	cancel2()
+	vReach("C15.abandoned.second-ping-returned")
+	// was a Pong with the second Ping's payload ever sent by the peer? Only "1" and "0" were: compare with the frame
+	frs, ok := vParseWritten(t.out)
+	vAssert(ok, "C15.abandoned.wellformed")
+	var last []byte
+	for _, f := range frs {
+		if f.opcode == 9 {
+			last = f.payload
+		}
+	}
+	answered := string(last) == "0" || string(last) == "1"
+	if !answered {
+		vAssert(err2 != nil, "C15.own.nil-only-after-own-pong")
+	}
+	c.CloseNow()
+	vObserve("c15abandoned", err2 != nil)
+}
